@@ -409,3 +409,7 @@ P("seed-C19-3", ["C19"], "seeded/C19-3/patch.diff")
 P("seed-C19-4", ["C19"], "seeded/C19-4/patch.diff")
 P("seed-C20-3", ["C20"], "seeded/C20-3/patch.diff")
 P("seed-C20-4", ["C20"], "seeded/C20-4/patch.diff")
+
+# ------------------------------------------------------------------ generated whole-package benign rewrites (every property)
+for _g in ("reformat", "logging", "rename-locals"):
+    VARIANTS.append({"id": f"gen-{_g}", "kind": "benign", "props": ["*"], "gen": _g})
